@@ -445,11 +445,20 @@ def gen_cal(rng, kind, fs, freqs):
     # and whether the caller keeps using (overwrites) its own arrays afterwards
     rows = [rows[i] for i in order_rows(rng, len(rows))]
     k = dict(how, c=kind, G=G, tbl=rows, mutate_inputs=rng.random() < 0.4)
-    r = rng.choice(TABLE_REPRS)
+    # (a list whose first sensitivity is a Python int followed by non-integers gets a fifth of the cases: it is the
+    # spelling under which NumPy's vectorize / array constructors infer an integer dtype from the first element)
+    r = 'intfirst' if rng.random() < 0.2 else rng.choice(TABLE_REPRS)
     if r == 'f32' and kind == 'point':
         r = 'ndarray'               # (float32 frequency tables compare in single precision: see c07.gen_ctor)
     if r == 'intfirst':
+        # whole numbers typed in as Python ints for the first row AND for the lowest frequency (the first one a
+        # multi-component stimulus asks for), and a whole-number gain typed in as an int: then the first value NumPy
+        # sees is a Python int although later ones are not whole numbers
         k['tbl'][0][1] = float(round(k['tbl'][0][1]))
+        lo = min(range(len(k['tbl'])), key=lambda i: k['tbl'][i][0])
+        k['tbl'][lo][1] = float(round(k['tbl'][lo][1]))
+        k['G'] = float(round(k['G']))
+        k['Grepr'] = 'int'
     if r:
         k['repr'] = r
     return k
